@@ -4,6 +4,7 @@ run by translator/guards.py) imply the preconditions of the kernels. Decision lo
 -/
 import Mahotas.Model.C11
 import Mahotas.Proofs.C11Shapes
+import Mahotas.Proofs.C11Hitmiss
 import Mahotas.Properties.C10
 open Mahotas Mahotas.C11 Mahotas.C10
 
@@ -144,7 +145,7 @@ theorem C11_find2d_guards_imply_pre (env : Env)
 
 /-- **C11-T1 (hitmiss).** The wrapper `morph.hitmiss` lets ndarrays through only with equal rank ≥ 1; the native
 `py_hitmiss` runs only with three ndarrays, the result of the shape of the input and a C array. (Neither checks that no
-axis of `input` or `Bc` has length zero: see `C11_hitmiss_safe_partial`.) -/
+axis of `input` or `Bc` has length zero: `C11_hitmiss_safe` shows that none is needed.) -/
 theorem C11_hitmiss_guards_imply_pre (env : Env) :
     ((env "input").kind = 1 → (env "Bc").kind = 1 → passes Generated.guards_morph_hitmiss env = true → PreHitmissW env) ∧
     (npasses Generated.nativeGuards_morph_hitmiss env = true →
@@ -227,11 +228,10 @@ theorem C11_cooccurence_guards_imply_pre (env : Env) (hf : (env "f").kind = 1) (
   simp [hs]
   omega
 
-/-- **C11-T1 (rank_filter, median_filter) — partial.** The helper `convolve._check_rank(Bc, rank, fname)` raises unless
-`0 ≤ rank < count_nonzero(Bc)`. NOT covered: that `rank_filter` and `median_filter` call it with the very `Bc` and
-`rank` they pass on to `_convolve.rank_filter` (they do, textually; the call is recorded as an opaque statement, the
-data flow is not modelled). -/
-theorem C11_rank_guards_imply_pre_partial (env : Env) (hr : (env "rank").kind = 2) (hb : (env "Bc").kind = 1)
+/-- **C11-T1 (the helper `_check_rank`).** `convolve._check_rank(Bc, rank, fname)` raises unless
+`0 ≤ rank < count_nonzero(Bc)`. That `rank_filter` and `median_filter` hand the very objects it has checked to
+`_convolve.rank_filter` is `C11_rank_guards_imply_pre` (round 3, from the extracted check flows). -/
+theorem C11_check_rank_helper_pre (env : Env) (hr : (env "rank").kind = 2) (hb : (env "Bc").kind = 1)
     (h : passes Generated.guards_convolve__check_rank env = true) : PreRank env := by
   simp [Generated.guards_convolve__check_rank, passes, Atom.rejects, isArr, isInt, hr, hb] at h
   exact h
@@ -336,20 +336,21 @@ theorem C11_majority_safe (envW envN : Env)
   have := C10_majority_in_bounds r c (envN "N").ival (by omega)
   exact ⟨r, c, by rw [has, ea], by rw [hrs, ea], hrc, this.1, this.2⟩
 
-/-- **C11+C10 (hitmiss) — partial, links extracted.** Let the wrapper guards of `morph.hitmiss` pass on ndarrays `input`,
-`Bc`, let `envN` be linked by the extracted links of the call of `_morph.hitmiss` (`array` and `Bc` are `.view(dtype)`s /
-`astype` conversions of the caller's arguments: the same RANK), and let the guards of the native `py_hitmiss` pass. Then
-rank(`Bc`) = rank(`array`) ≥ 1, `res_a` has the shape of `array` and is a C array, and — PROVIDED no axis of `array` or `Bc`
-has length zero, which NO guard of the wrapper or of the native entry point checks (the gap, hypotheses `hs`, `hb`; see
-`C11_hitmiss_zero_axis_passes_guards` for a descriptor that passes all guards without it) — the whole main loop of the C10
-model dereferences only `res.at_flat(i)`, `i < N` and `input.at_flat(i + delta)` inside the buffer and ends through `i == N`. -/
-theorem C11_hitmiss_safe_partial (envW envN : Env)
+/-- **C11+C10 (hitmiss), links extracted, zero-length axes included.** Let the wrapper guards of `morph.hitmiss` pass on
+ndarrays `input`, `Bc`, let `envN` be linked by the extracted links of the call of `_morph.hitmiss` (`array` and `Bc` are
+`.view(dtype)`s / `astype` conversions of the caller's arguments: the same RANK), and let the guards of the native
+`py_hitmiss` pass (well-formed descriptors). Then rank(`Bc`) = rank(`array`) ≥ 1, `res_a` has the shape of `array` and is a C
+array, and the whole main loop of the C10 model dereferences only `res.at_flat(i)`, `i < N` and `input.at_flat(i + delta)`
+inside the buffer and ends through `i == N` — for ALL axis lengths: NO guard excludes a zero-length axis of the image or of
+`Bc` (`C11_hitmiss_zero_axis_passes_guards`), and none is needed: an image without elements is not iterated, an empty
+`Bc` has no neighbours and `slack` is then re-armed with `W + 1 > 0` or the margin test of `C10_hitmiss_in_bounds` applies
+(`Proofs/C11Hitmiss.lean: hmRun_ok_all`). This removes the `_partial` of round 2. -/
+theorem C11_hitmiss_safe (envW envN : Env)
     (hi : (envW "input").kind = 1) (hB : (envW "Bc").kind = 1)
     (hw : passes Generated.guards_morph_hitmiss envW = true)
     (hl : Linked Generated.lookupTables Generated.links_morph_hitmiss__morph_hitmiss envW envN = true)
     (hn : npasses Generated.nativeGuards_morph_hitmiss envN = true)
-    (wfa : (envN "array").wf) (wfb : (envN "Bc").wf)
-    (hs : ∀ d ∈ (envN "array").shape, 0 < d) (hb : ∀ d ∈ (envN "Bc").shape, 0 < d) :
+    (wfa : (envN "array").wf) (wfb : (envN "Bc").wf) :
     (envN "res_a").shape = (envN "array").shape ∧ (envN "res_a").isCArray = true ∧
     (∀ a ∈ (hmRun (envN "array").shape (envN "Bc").shape true).1, 0 ≤ a.i ∧ a.i < a.size) ∧
     (hmRun (envN "array").shape (envN "Bc").shape true).2 = true := by
@@ -361,7 +362,7 @@ theorem C11_hitmiss_safe_partial (envW envN : Env)
   have hne : (envN "array").shape ≠ [] := by
     intro e; rw [e] at wfa; simp at wfa; omega
   have hlen : (envN "Bc").shape.length = (envN "array").shape.length := by omega
-  have := C10_hitmiss_in_bounds (envN "array").shape (envN "Bc").shape hne hlen hs hb
+  have := hmRun_ok_all (envN "array").shape (envN "Bc").shape hne hlen
   exact ⟨h3, h4, this.1, this.2⟩
 
 /-- **C11+C10 (center_of_mass).** If the guards of the native `py_center_of_mass` pass and labels are given, then for
@@ -452,7 +453,7 @@ theorem C11_zoom_shift_safe (env : Env) (m : Mode) (order : Nat) (coord starts :
     C10.zsStarts_length m order (env "array").shape coord starts hlen hst
   exact ⟨hca, (C10_zoom_shift_in_bounds (env "array").shape order starts hpos hsl).2.1⟩
 
-/-- **C11-T3 (rejects are exceptions).** Over the whole generated table of exit actions (every guard atom of the 50
+/-- **C11-T3 (rejects are exceptions).** Over the whole generated table of exit actions (every guard atom of the 51
 wrappers and of the 52 native entry points; the table is aligned with the guard lists — its second component is the
 length of the list): every wrapper guard `raise`s; every native guard either sets a Python error and returns NULL
 (`PyErr_SetString`/`PyErr_Format`/`PyErr_NoMemory`/`throw PythonException`, or `!PyArg_ParseTuple`, or a failed callee
@@ -666,7 +667,7 @@ theorem C11_rank_guards_imply_pre (envH envN : Env) (hr : (envH "rank").kind = 2
     (Flows [("Bc", "Bc", 0), ("rank", "rank", 0)] envH envN = true → PreRank envN) ∧
     (Flows [("Bc", "Bc", 0), ("rank", "rank", 1)] envH envN = true → PreRank envN) ∧
     (npasses Generated.nativeGuards_convolve_rank_filter envN = true → PreRankN envN) := by
-  have hp := C11_rank_guards_imply_pre_partial envH hr hb h
+  have hp := C11_check_rank_helper_pre envH hr hb h
   unfold PreRank at hp ⊢
   refine ⟨by rfl, ?_, ?_, ?_⟩
   · intro hf
@@ -683,7 +684,7 @@ theorem C11_rank_guards_imply_pre (envH envN : Env) (hr : (envH "rank").kind = 2
 
 /-- **C11 (hitmiss): the precondition "every axis positive" is NOT implied by the guards.** A 4 × 4 image with a 0 × 3
 structuring element (and a 4 × 4 C-array result) passes every guard of the wrapper `morph.hitmiss` and of the native
-`py_hitmiss`, and is linked by the extracted links; the hypothesis `hb` of `C11_hitmiss_safe_partial` fails for it. (Run on
+`py_hitmiss`, and is linked by the extracted links; the hypothesis `hb` of `C10_hitmiss_in_bounds` fails for it (`C11_hitmiss_safe` covers it all the same). (Run on
 the real code by the corpus cases `corpus/C11/hitmiss_zero_axis_*.json` under AddressSanitizer: no crash — with a
 zero-length axis the neighbour list is empty, so only `res.at_flat(i)`, `i < N`, is touched.) -/
 theorem C11_hitmiss_zero_axis_passes_guards :
